@@ -36,10 +36,10 @@ func (a Ary[LEN]) WriteTo(w io.Writer) (n int64, err error) {
 		array = array.Elem()
 	}
 	Len := LEN(array.Len())
-	if nn, err := any(&Len).(FieldEncoder).WriteTo(w); err != nil {
+	nn, err := any(&Len).(FieldEncoder).WriteTo(w)
+	n += nn
+	if err != nil {
 		return n, err
-	} else {
-		n += nn
 	}
 	for i := 0; i < array.Len(); i++ {
 		elem := array.Index(i)
@@ -255,10 +255,10 @@ type Tuple []any // FieldEncoder, FieldDecoder or both (Field)
 func (t Tuple) WriteTo(w io.Writer) (n int64, err error) {
 	for _, v := range t {
 		nn, err := v.(FieldEncoder).WriteTo(w)
+		n += nn // also what a failing field managed to write
 		if err != nil {
 			return n, err
 		}
-		n += nn
 	}
 	return
 }
@@ -267,10 +267,10 @@ func (t Tuple) WriteTo(w io.Writer) (n int64, err error) {
 func (t Tuple) ReadFrom(r io.Reader) (n int64, err error) {
 	for i, v := range t {
 		nn, err := v.(FieldDecoder).ReadFrom(r)
+		n += nn // also what a failing field managed to read
 		if err != nil {
 			return n, fmt.Errorf("decode tuple[%d] %T error: %w", i, v, err)
 		}
-		n += nn
 	}
 	return
 }
